@@ -460,8 +460,8 @@ def collect(rep, pid, tier, replay_file=None):
             raise MachineryError("Trace_Refs failed:\n" + r.raw_tail[-2500:])
         return {l["reject"]: l["clause"] for l in r.lines}, r.distinct
     if events:
-        size = max(100, (len(events) + 9) // 10)
-        with ThreadPoolExecutor(max_workers=10) as ex:
+        size = max(100, min(800, (len(events) + 7) // 8))
+        with ThreadPoolExecutor(max_workers=8) as ex:
             for rej, n in ex.map(chunk_run, [events[i:i + size] for i in range(0, len(events), size)]):
                 rejected.update(rej)
                 adj_states += n
